@@ -36,7 +36,7 @@ type c06V2Resp struct {
 	MaximumItems     int32 `ttlv:",omitempty"`
 }
 
-const c06VendorOp = kmip.Operation(0x80000C06)
+var c06VendorOp = kmip.Operation(0x80000C06)
 
 func (*c06V1Req) Operation() kmip.Operation  { return c06VendorOp }
 func (*c06V1Resp) Operation() kmip.Operation { return c06VendorOp }
@@ -98,6 +98,15 @@ func c06Concurrent(c *h.Ctx) {
 }
 
 func c06Reregister(c *h.Ctx) {
+	// an extension code and a code of the standard range that has no payload registered (a named but
+	// unimplemented operation): both go through the same registry
+	for _, op := range []kmip.Operation{0x80000C06, kmip.OperationMAC} {
+		c06VendorOp = op
+		c06ReregisterOp(c)
+	}
+}
+
+func c06ReregisterOp(c *h.Ctx) {
 	type enc struct {
 		name string
 		mar  func(any) []byte
